@@ -332,6 +332,11 @@ int main(int argc, char** argv) {
                 for (long i = 0; i < n; ++i) { Tree u = Tree::unary(o1, treeOf(I(3))); t = Tree::binary(o2, t, u); }
                 setTree(d, std::move(t));
             }
+            else if (op == "machild") {          // machild d k : t = t->lhs() (k=0) / t->rhs() (k=1): copy-assignment
+                Tree& t = *slots[d].t;           // from a Tree stored INSIDE the node the handle may be the last owner of
+                int k = atoi(w[2].c_str());
+                t = (k == 0) ? t->lhs() : t->rhs();
+            }
             else if (op == "mchainremap") {      // mchainremap d s l pos n : chain through slot pos (0=t 1=x 2=y 3=z)
                 Tree t = treeOf(I(2));           // s must contain x/y/z (so must l when pos != 0)
                 const Tree& l = treeOf(I(3));
